@@ -5,11 +5,14 @@ computed from their documented definition with plain Python (never through attrs
 Nothing in this module imports attr.validators."""
 from __future__ import annotations
 
+import abc
 import collections.abc
 import enum
 import numbers
 import operator
 import re
+import types
+import typing
 import zlib
 
 from attr.exceptions import NotCallableError
@@ -116,6 +119,13 @@ def _method(beh, W):
         def m(self, *a):
             return NotImplemented if d == "NotImplemented" else mk(d)
         return m
+    if tag == "positive":           # value-dependent: a refinement type "positive int"
+        return lambda self, obj: type(obj) is int and obj > 0
+    if tag == "hasattr":            # value-dependent: depends on the instance's attributes
+        name = beh[1]
+        return lambda self, obj: name in getattr(obj, "__dict__", {})
+    if tag == "truthy_len":         # value-dependent: non-empty builtin containers
+        return lambda self, obj: type(obj) in (list, tuple, str, dict) and len(obj) > 0
     raise ValueError(beh)
 
 
@@ -199,9 +209,70 @@ def _htype(spec):
     return cls
 
 
+# ------------------------------------------------------------------ the per-case world
+# Classes whose isinstance() answers can change over time (ABC registration) or depend on the instance
+# (protocols with data members, value-dependent __instancecheck__) are created afresh for every case --
+# on the oracle side and on the observing side separately -- so that no state leaks between cases.
+WORLD: dict = {}
+
+
+def new_world():
+    WORLD.clear()
+
+
+def _world_class(kind, name, extra=None):
+    key = (kind, name, _freeze(extra) if extra is not None else None)
+    cls = WORLD.get(key)
+    if cls is not None:
+        return cls
+    if kind == "wcls":
+        cls = type(name, (object,), {"_wname": name})
+    elif kind == "wabc":
+        cls = abc.ABCMeta(name, (object,), {})
+    elif kind == "wproto":
+        cls = types.new_class(name, (typing.Protocol,), {},
+                              lambda ns: ns.update({"__annotations__": {extra: int}, "__module__": __name__}))
+        cls = typing.runtime_checkable(cls)
+    elif kind == "wtype":
+        meta = type("Meta_" + name, (type,), {"__instancecheck__": _method(extra, None)})
+        cls = meta(name, (object,), {})
+    else:
+        raise ValueError(kind)
+    WORLD[key] = cls
+    return cls
+
+
+def apply_op(op, hist):
+    """a change of the world between two calls of a history; `hist` = the objects of the earlier calls"""
+    tag = op[0]
+    if tag == "register":           # SomeABC.register(SomeClass)
+        mk(op[1]).register(mk(op[2]))
+    elif tag == "setattr":          # only on instances of world classes (anything else: no-op)
+        if op[1] < len(hist) and isinstance(type(hist[op[1]]).__dict__.get("_wname"), str):
+            setattr(hist[op[1]], op[2], mk(op[3]))
+    elif tag == "delattr":
+        if op[1] < len(hist) and isinstance(type(hist[op[1]]).__dict__.get("_wname"), str) \
+                and op[2] in hist[op[1]].__dict__:
+            delattr(hist[op[1]], op[2])
+    elif tag == "append":
+        if op[1] < len(hist) and type(hist[op[1]]) is list:
+            hist[op[1]].append(mk(op[2]))
+    else:
+        raise ValueError(op)
+
+
 def mk(d):
     """descriptor -> a fresh Python object (classes / functions / enum members are shared)"""
     tag = d[0]
+    if tag in ("wcls", "wabc"):
+        return _world_class(tag, d[1])
+    if tag in ("wproto", "wtype"):
+        return _world_class(tag, d[1], d[2])
+    if tag == "winst":
+        o = _world_class("wcls", d[1])()
+        for k, v in d[2]:
+            setattr(o, k, mk(v))
+        return o
     if tag == "int":
         return int(d[1])
     if tag == "bool":
@@ -253,6 +324,8 @@ def mk(d):
         return list[int]
     if tag == "pat":
         return re.compile(d[1], d[2])
+    if tag == "bpat":
+        return re.compile(d[1].encode("latin1"), d[2])
     if tag == "H":
         return _hostile(d[1])
     if tag == "Htype":
@@ -266,6 +339,9 @@ def fp(v) -> str:
     f = t.__dict__.get("_fp") if hasattr(t, "__dict__") else None
     if isinstance(f, str):
         return f
+    w = t.__dict__.get("_wname") if hasattr(t, "__dict__") else None
+    if isinstance(w, str):
+        return "W:" + w + "{" + ",".join(k + "=" + fp(x) for k, x in sorted(v.__dict__.items())) + "}"
     if v is None:
         return "None"
     if t is bool:
